@@ -30,7 +30,8 @@ package fox
 
 //@ -- ---------------------------------------------------------------- C19: resolver selection at request time
 
-//@ func (*cTx).ClientIP props C19
+//@ -- nothing is remembered between calls: the answer is the resolver's, for this context, now (also C18, C20)
+//@ func (*cTx).ClientIP props C19,C18,C20
 //@   requires c != nil && c.fox != nil && c.fox.clientip != nil && (c.route != nil ==> c.route.clientip != nil)
 //@   ensures special: c.route == nil ==> result0 == resolverIP(c.fox.clientip, box(c), hCalls) && result1 == resolverErr(c.fox.clientip, box(c), hCalls)
 //@   ensures matched: c.route != nil ==> result0 == resolverIP(c.route.clientip, box(c), hCalls) && result1 == resolverErr(c.route.clientip, box(c), hCalls)
